@@ -1325,6 +1325,8 @@ def install(ip):
         def f(ip, a, k):
             ip.path.assumptions.add("A7: code between two suspension points is atomic")
             ev = ip.event("await:" + name, a, k)
+            if getattr(ip, "on_effect", None) is not None:
+                ip.on_effect(ev)             # on_effect guards of the contract apply to suspension points as well
             h = getattr(ip, "on_yield", None)
             if h is not None:
                 h(ev)
